@@ -5,9 +5,12 @@ package c03scen
 
 import (
 	"fmt"
+	"hash/crc32"
 	"io"
 	"net/http"
 	"net/url"
+	"os"
+	"path/filepath"
 	"sort"
 	"strings"
 	"sync"
@@ -61,6 +64,33 @@ var Kinds = []Req{
 	{"GET", "/u/1/z"}, {"POST", "/bind"}, {"GET", "/bind?q=x&age=4"},
 	// a route with an optional part and no variables whose handler adds an entry to the parameter map it was given
 	{"GET", "/mo.html"},
+	// a handler that hands its context to a SECOND router whose handler panics; a handler that reports which router its
+	// context belongs to; a download of a 70 KB file through Context.FileContent (three copy rounds)
+	{"GET", "/sub/boom"}, {"GET", "/who"}, {"GET", "/file"},
+}
+
+var (
+	bigOnce sync.Once
+	bigPath string
+)
+
+// bigFile returns the path of a 70 KB file with position-dependent content (written once per machine, re-created when missing)
+func bigFile() string {
+	bigOnce.Do(func() {
+		bigPath = filepath.Join(os.TempDir(), "rux-verif-c03-download.bin")
+		want := make([]byte, 70*1024)
+		for i := range want {
+			want[i] = byte('a' + (i/1024)%26)
+		}
+		if got, err := os.ReadFile(bigPath); err == nil && string(got) == string(want) {
+			return
+		}
+		tmp := fmt.Sprintf("%s.%d", bigPath, os.Getpid())
+		if os.WriteFile(tmp, want, 0o644) == nil {
+			_ = os.Rename(tmp, bigPath)
+		}
+	})
+	return bigPath
 }
 
 // bindForm is what the /bind route binds (the form binder and the query binder read different tags)
@@ -146,6 +176,20 @@ func Build(s Shape) *rux.Router {
 	route("/u/{id}", "U", "GET", "DELETE")
 	route("/{x}/y", "XY", "GET", "PUT")
 	route("/u/{id}/z", "UZ", "GET")
+	sub := rux.New()
+	sub.GET("/sub/boom", func(c *rux.Context) { panic("boom in the mounted router") })
+	r.GET("/sub/boom", func(c *rux.Context) {
+		Yield()
+		sub.HandleContext(c)
+	})
+	r.GET("/who", func(c *rux.Context) {
+		Yield()
+		c.WriteString(fmt.Sprintf("[WHO router-is-the-serving-router=%v]", c.Router() == r))
+	})
+	r.GET("/file", func(c *rux.Context) {
+		Yield()
+		c.FileContent(bigFile())
+	})
 	r.GET("/mo[.html]", func(c *rux.Context) {
 		Yield()
 		seen := fmt.Sprintf("%d%s", len(c.Params), c.Param("ext"))
@@ -252,7 +296,12 @@ func Serve(r http.Handler, q Req) (obs string) {
 		}
 	}()
 	r.ServeHTTP(w, req)
-	obs = fmt.Sprintf("%d wh=%d allow=%q %q", w.Code, w.NWH, w.H.Get("Allow"), w.Body)
+	if len(w.Body) > 4096 {
+		// (a download: length and checksum instead of the bytes)
+		obs = fmt.Sprintf("%d wh=%d allow=%q <%d bytes, crc32 %08x>", w.Code, w.NWH, w.H.Get("Allow"), len(w.Body), crc32.ChecksumIEEE(w.Body))
+	} else {
+		obs = fmt.Sprintf("%d wh=%d allow=%q %q", w.Code, w.NWH, w.H.Get("Allow"), w.Body)
+	}
 	if cp, ok := kept.LoadAndDelete(req); ok {
 		// the request is over and its pooled context may already serve someone else: the copy must still read the same
 		Yield()
